@@ -81,6 +81,15 @@ fn messages(seed: u64) -> (Vec<M>, Vec<SignedMsg>) {
     bad.sig = w.signed_commit(1, &w.commit_vote(9, 0, &px)).sig;
     ms.push(M { sender: 0, kind: 0, view: 3, valid: false, id: ms.len() });
     sm.push(bad);
+    // validly signed commit votes of sender 0 that name ANOTHER chain (the genesis hash is a field the signer
+    // chooses): they compete for the same (sender, kind) slot as its other commit votes
+    let other = l1::world(seed ^ 0x0E5).0.c.genesis.hash();
+    for view in [1u64, 3] {
+        let mut v = w.commit_vote(view, 0, &px);
+        v.view.genesis = other;
+        ms.push(M { sender: 0, kind: 0, view, valid: true, id: ms.len() });
+        sm.push(w.signed_commit(0, &v));
+    }
     (ms, sm)
 }
 
@@ -396,7 +405,8 @@ pub fn run(args: &Args) -> Report {
     // (a1)
     let (ms, _) = messages(args.seed);
     // alphabet: sender 0 commit views 1,2,3; sender 0 timeout view 2; sender 1 commit view 2; bad signature
-    let alpha: Vec<usize> = vec![0, 1, 2, 4, 12 + 1, ms.len() - 1];
+    // ... and sender 0 commit views 1 and 3 naming another genesis
+    let alpha: Vec<usize> = vec![0, 1, 2, 4, 12 + 1, ms.len() - 3, ms.len() - 2, ms.len() - 1];
     let (seq_evals, seq_distinct, v1) = sequences(args.seed, args.tier.pick(4, 6), &alpha);
     if let Some((wh, rp)) = v1 {
         rep.violations.push(Violation { key: "channel_sequence".into(), what: wh, replay: rp });
@@ -417,7 +427,7 @@ pub fn run(args: &Args) -> Report {
             rep.violations.push(Violation { key: k.clone(), what: wh.clone(), replay: rp.clone() });
         }
     }
-    rep.coverage = l1::coverage_json(&res, &cfg, "(a1) every operation sequence send(m)|recv up to the tier's length over a 6-message alphabet on the real create_input_channel() against the stated rule on a Vec; (a2) two real sender threads interleaved at every lock acquisition of the underlying watch channel, all interleavings of 8 message pairs, final buffer must equal the rule's result for one of the two sequential orders; (b) L1 replica search (real handlers) with votes for far-future views (up to u64::MAX) interleaved with ordinary inputs: cache sizes stay within the committee-size bound and every cached partial certificate is at some validator's latest view");
+    rep.coverage = l1::coverage_json(&res, &cfg, "(a1) every operation sequence send(m)|recv up to the tier's length over an 8-message alphabet (two senders, two kinds, three views, a bad signature, two validly signed votes naming another genesis) on the real create_input_channel() against the stated rule on a Vec; (a2) two real sender threads interleaved at every lock acquisition of the underlying watch channel, all interleavings of 8 message pairs, final buffer must equal the rule's result for one of the two sequential orders; (b) L1 replica search (real handlers) with votes for far-future views (up to u64::MAX) interleaved with ordinary inputs: cache sizes stay within the committee-size bound and every cached partial certificate is at some validator's latest view");
     rep.coverage["channel_sequences"] = json!(seq_evals);
     rep.coverage["channel_distinct_final_buffers"] = json!(seq_distinct);
     rep.coverage["thread_interleavings"] = json!(t_execs);
